@@ -626,7 +626,13 @@ func TestC12Auth(t *testing.T) {
 			configured = map[string]auth.AuthScheme{}
 		}
 		p := &proxy.HTTPProxy{Stats: wire.Stats(), Transport: rt, Lookup: func(*http.Request) *route.Target { return tg }, AuthSchemes: configured}
-		req := httptest.NewRequest("GET", "http://example.com/x", nil)
+		// whatever kind of request it is (a CORS preflight is a request like any other)
+		req := httptest.NewRequest(rapid.SampledFrom([]string{"GET", "OPTIONS", "GET", "POST", "HEAD", "OPTIONS", "DELETE"}).Draw(t, "method"), "http://example.com/x", nil)
+		if rapid.IntRange(0, 2).Draw(t, "cors-headers") == 0 {
+			req.Header.Set("Origin", "https://app.example")
+			req.Header.Set("Access-Control-Request-Method", "POST")
+			req.Header.Set("Access-Control-Request-Headers", "authorization")
+		}
 		req.RemoteAddr = "10.1.1.1:999"
 		user, pass, credKind := "", "", rapid.SampledFrom([]string{"right", "right", "wrongpw", "shiftedsplit", "unknownuser", "none", "malformed", "emptypw", "derivedpw"}).Draw(t, "cred")
 		names := []string{"alice", "bob", "üser", "colon"}
